@@ -99,6 +99,12 @@ class PNormalise(Pattern):
     def __repr__(self):
         return ("PNormalise(%s)" % repr(self.input))
 
+    def reset(self):
+        super().reset()
+        self.lower = None
+        self.upper = None
+        self.history = []
+
     def __next__(self):
         value = Pattern.value(self.input)
 
